@@ -189,9 +189,6 @@ PRIMITIVES = {
         ("lbry.wallet.database.Database.get_balance", "balance = sum of unspent"),
         ("lbry.wallet.database.Database.get_detailed_balance", "claims / supports / tips reported apart"),
         ("class:lbry.wallet.script.OutputScript", "output templates and their names (what is a claim / support)"),
-        ("lbry.wallet.script.OutputScript.is_support_claim", "support classification"),
-        ("lbry.wallet.script.OutputScript.is_support_claim_data", "support-with-data classification"),
-        ("lbry.wallet.script.OutputScript.is_claim_involved", "claim involvement"),
         ("lbry.wallet.transaction.Output.is_support", "support outputs"),
         ("lbry.wallet.transaction.Output.is_claim", "claim outputs"),
         ("lbry.wallet.ledger.Ledger.get_address_manager_for_address", "address → its chain"),
@@ -298,8 +295,6 @@ PRIMITIVES = {
         ("class:lbry.wallet.script.InputScript", "input templates and their matching order"),
         ("class:lbry.wallet.script.OutputScript", "output templates, names and matching order"),
         ("lbry.schema.base.Signable.to_bytes", "payload layout"),
-        ("lbry.wallet.script.OutputScript.is_support_claim", "support classification"),
-        ("lbry.wallet.script.OutputScript.is_support_claim_data", "support-with-data classification"),
         ("lbry.wallet.script.Parser.consume_many_non_greedy", "PUSH_MANY consumption"),
         ("lbry.wallet.script.Script.from_source_with_template", "sub-script parsing"),
         ("lbry.wallet.script.Script.tokens", "tokenisation of a script"),
